@@ -143,6 +143,19 @@ Definition make_column_def (name typ cs : val) : val :=
     end in
   VStruct "ColumnDef" (fold_left step (match cs with VList l => l | _ => [] end) init).
 
+(* strings.ToUpper on ASCII letters (all that matters for comparing with TRUE / FALSE) *)
+Definition upper_ascii (c : Ascii.ascii) : Ascii.ascii :=
+  let n := Ascii.nat_of_ascii c in
+  if (Nat.leb 97 n && Nat.leb n 122)%bool then Ascii.ascii_of_nat (n - 32) else c.
+Fixpoint upper_str (s : string) : string :=
+  match s with EmptyString => EmptyString | String c r => String (upper_ascii c) (upper_str r) end.
+(* sql.go: bareDefault *)
+Definition bare_default (v : val) : val :=
+  match v with
+  | VStr s => if String.eqb (upper_str s) "TRUE" then VBool true else if String.eqb (upper_str s) "FALSE" then VBool false else v
+  | _ => v
+  end.
+
 Definition call (f : string) (args : list val) : option val :=
   match args with
   | [a] =>
@@ -154,6 +167,7 @@ Definition call (f : string) (args : list val) : option val :=
     else if String.eqb f "ccCollate" then Some (VNamed "ccCollate" a)
     else if String.eqb f "ccReferences" then Some (VNamed "ccReferences" a)
     else if String.eqb f "ccDefault" then Some a
+    else if String.eqb f "bareDefault" then Some (bare_default a)
     else None
   | [a; b; c] =>
     if String.eqb f "makeColumnDef" then Some (make_column_def a b c)
